@@ -39,7 +39,7 @@ P("C01", RM + "panic/overflow/internal-error/progress monitors over hostile gene
   "trees: random depth<=5/fan-out<=6 incl. ambiguous and degenerate ones (empty / over-long names, several defaults, empty branches); handler scripts pulling random typed conversions (31 kinds) at random positions; "
   "direct drive of Tokenizer / every TryFrom<Token> / ChannelList / NumericList up to the first error; all strings of length<=5 (quick) / 6 (thorough) over 22 class representatives. "
   "Monitors: catch_unwind + panic hook (any panic is a violation), -300 'Internal parser error' detection, every Ok token must consume input, bounded token/handler counts, wall-clock watchdog with three isolated re-runs. "
-  "Non-trivial = distinct input bytes (sweep: inputs that reach a handler).",
+  "Stage many-units: well-formed messages of 500..140 000 units that all execute (the native stack must not grow with the unit count; a fatal signal is reported with the case as witness). Non-trivial = distinct input bytes (sweep: inputs that reach a handler).",
   ["termination is decided as bounded progress + watchdog; a watchdog suspect that does not reproduce is reported inconclusive, never as a violation",
    "absence of Miri/ASan reports covers only the executions interpreted; ASan is a red-zone tool"],
   quick=[REL, DBG, dict(COMPACT, args=["--stages", "boundary,direct", "--scale", "0.3"]), asan(["--stages", "boundary,run,direct"]), miri(16, 1200)], thorough=[REL, DBG, dict(COMPACT, args=["--stages", "boundary,direct,run", "--scale", "0.2"]), miri(16, 3600, ["--tier", "thorough"], 1500), asan(["--scale", "0.35"])],
